@@ -500,9 +500,13 @@ def walk_sequence(
 ) -> Iterable[Tuple[ast.AST]]:
     """Iterate over all sequences of nodes in scope that match a sequence of templates."""
     uncommon = set()
-    for node in walk(
-        scope, tuple({*constants.AST_TYPES_WITH_BODY, *constants.AST_TYPES_WITH_ORELSE})
-    ):
+    # Not a set: the order in which a set of types is iterated follows their memory addresses, so
+    # the order of the matches, and with it what rules that stop at the first match do, would
+    # differ from process to process
+    types_with_body = tuple(
+        dict.fromkeys((*constants.AST_TYPES_WITH_BODY, *constants.AST_TYPES_WITH_ORELSE))
+    )
+    for node in walk(scope, types_with_body):
         for body in [getattr(node, "body", []), getattr(node, "orelse", [])]:
             if not body:
                 continue
